@@ -18,6 +18,8 @@ import (
 	"errors"
 	"sync"
 	"sync/atomic"
+
+	"github.com/hydraide/hydraide/app/verifhook"
 )
 
 // Guard is an interface that defines methods for locking and unlocking a Treasure in a thread-safe and
@@ -137,9 +139,18 @@ func (g *guard) StartTreasureGuard(waiting bool, bodyAuthID ...string) (guardID 
 		if len(bodyAuthID) > 0 {
 			g.bodyAuthID = bodyAuthID[0]
 		}
+		if verifhook.Enabled {
+			verifhook.Point("guard.enq", g, gID)
+		}
 		// Wait while the current guard ID is not the first in the queue
 		for g.waitForUnlock[0] != gID {
+			if verifhook.Enabled {
+				verifhook.Point("guard.wait", g, gID)
+			}
 			g.cond.Wait()
+		}
+		if verifhook.Enabled {
+			verifhook.Point("guard.acq", g, gID)
 		}
 		// Return the guard ID
 		return ID(gID)
@@ -152,6 +163,10 @@ func (g *guard) StartTreasureGuard(waiting bool, bodyAuthID ...string) (guardID 
 			g.waitForUnlock = append(g.waitForUnlock, gID)
 			if len(bodyAuthID) > 0 {
 				g.bodyAuthID = bodyAuthID[0]
+			}
+			if verifhook.Enabled {
+				verifhook.Point("guard.enq", g, gID)
+				verifhook.Point("guard.acq", g, gID)
 			}
 			// Return the guard ID
 			return ID(gID)
@@ -176,8 +191,14 @@ func (g *guard) ReleaseTreasureGuard(guardID ID) {
 		if len(g.waitForUnlock) == 0 {
 			atomic.StoreInt64(&g.largestGuardID, 0)
 		}
+		if verifhook.Enabled {
+			verifhook.Point("guard.rel", g, int64(guardID), true)
+		}
 		g.cond.Broadcast()
 		return
+	}
+	if verifhook.Enabled {
+		verifhook.Point("guard.rel", g, int64(guardID), false)
 	}
 
 }
